@@ -86,10 +86,12 @@ def expr_src(e):
         return "%s %s %s" % (sub(e["l"], p), e["op"], sub(e["r"], p + 1)), p
     if k == "un":
         return "%s%s" % (e["op"], sub(e["e"], PREC["unary"])), PREC["unary"]
+    # `&&` and `||` parse their RIGHT operand at their own level (parse_precedence(And) / (Or)): a chain groups to the right, so a
+    # left operand that is itself an && (an ||) needs parentheses to stay the left operand
     if k == "and":
-        return "%s && %s" % (sub(e["l"], PREC["and"]), sub(e["r"], PREC["and"])), PREC["and"]
+        return "%s && %s" % (sub(e["l"], PREC["and"] + 1), sub(e["r"], PREC["and"])), PREC["and"]
     if k == "or":
-        return "%s || %s" % (sub(e["l"], PREC["or"]), sub(e["r"], PREC["or"])), PREC["or"]
+        return "%s || %s" % (sub(e["l"], PREC["or"] + 1), sub(e["r"], PREC["or"])), PREC["or"]
     if k == "assign":
         return "%s = %s" % (e["x"], sub(e["e"], PREC["assign"])), PREC["assign"]
     if k == "cassign":
